@@ -1328,7 +1328,7 @@ class Standard(Output):
                     lines.append(lmissing)
                     names.append("missing")
                 mpl.figlegend(lines, names, loc="lower center", ncol=4)
-            elif data.num_inputs == 2:
+            elif data.num_inputs == 2 and self.legfs > 0:
                 lines = [lmax, lsimilar, lmin]
                 names = [labels[0] + " is higher", "similar", labels[1] + " is higher"]
                 if lmissing is not None:
